@@ -516,6 +516,27 @@ class Function:
             return e
         return self.resolve(ds[0], _depth + 1)
 
+    def copies_of(self, name):
+        """`name` plus every variable that may receive its value through plain copies (`b = a; c = (T) b;`)."""
+        out = {name}
+        changed = True
+        while changed:
+            changed = False
+            for b, i, s in self.stmts():
+                for n in walk(s, elsewhere=True):
+                    tgt = src = None
+                    if n["k"] == "decl" and n.get("init") is not None:
+                        tgt, src = n["name"], n["init"]
+                    elif n["k"] == "asg" and n["op"] == "=" and strip_casts(n["l"]) is not None and strip_casts(n["l"])["k"] == "ref":
+                        tgt, src = strip_casts(n["l"])["name"], n["r"]
+                    if tgt is None or tgt in out:
+                        continue
+                    sv = strip_casts(src)
+                    if sv is not None and sv["k"] == "ref" and sv["name"] in out:
+                        out.add(tgt)
+                        changed = True
+        return out
+
     def value_aliases(self, name):
         """`name` plus every local whose only definition is a (cast of a) copy of it: `T *self = arg;`"""
         out = {name}
@@ -671,6 +692,8 @@ def _walk_all(e):
 
 def _rename_tree(e, suffix, names):
     for n in _walk_all(e):
+        if n.get("_caller"):
+            continue          # a variable of the caller substituted for a parameter: not the callee's local of the same name
         if n["k"] == "ref" and n.get("decl") in ("local", "param") and n["name"] in names:
             n["name"] = n["name"] + suffix
             n["decl"] = "local"
@@ -796,6 +819,7 @@ def _inline_round(d, unit, self_name, counter, max_blocks, only, skip):
                         for n in _walk_all(s_):
                             if n["k"] == "ref" and n.get("decl") == "param" and n["name"] in direct:
                                 n["name"], n["decl"] = direct[n["name"]]
+                                n["_caller"] = 1
                 names -= set(direct)
             if const_of:
                 import copy as _cp
@@ -804,6 +828,8 @@ def _inline_round(d, unit, self_name, counter, max_blocks, only, skip):
                         for n in _walk_all(s_):
                             if n["k"] == "ref" and n.get("decl") == "param" and n["name"] in const_of:
                                 src = _cp.deepcopy(const_of[n["name"]])
+                                for m_ in _walk_all(src):
+                                    m_["_caller"] = 1
                                 keep_x = n.get("x")
                                 n.clear()
                                 n.update(src)
@@ -821,6 +847,7 @@ def _inline_round(d, unit, self_name, counter, max_blocks, only, skip):
                                         inner = inner["e"]
                                     if inner is not None and inner["k"] == "ref" and inner.get("decl") == "param" and inner["name"] in addr_of:
                                         r2 = dict(addr_of[inner["name"]])
+                                        r2["_caller"] = 1
                                         r2["loc"] = v.get("loc", r2.get("loc"))
                                         if v.get("x"):
                                             r2["x"] = 1
@@ -839,9 +866,10 @@ def _inline_round(d, unit, self_name, counter, max_blocks, only, skip):
                     for s_ in cb["stmts"]:
                         for n in _walk_all(s_):
                             if n["k"] == "ref" and n.get("decl") == "param" and n["name"] in addr_of:
-                                tv = addr_of[n["name"]]
+                                tv = dict(addr_of[n["name"]])
+                                tv["_caller"] = 1
                                 n.clear()
-                                n.update({"k": "un", "op": "&", "e": dict(tv), "loc": tv.get("loc"), "t": tv.get("t", 0)})
+                                n.update({"k": "un", "op": "&", "e": tv, "loc": tv.get("loc"), "t": tv.get("t", 0), "_caller": 1})
                 names -= set(addr_of)
             b["stmts"] = b["stmts"][:i] + pre
             b["succs"] = [{"to": idmap[cd["entry"]], "on": ""}]
